@@ -286,6 +286,18 @@ Fixpoint run_extra (l : list bool) (h : option err) (s : st) : list cls * st :=
               let '(o, s2) := run_extra r h1 s1 in (cls_oe h1 :: o, s2)
   end.
 
+(* Commit / Rollback called on the handle of a FAILED Begin (manual programs): ConnPool holds the
+   typed-nil *sql.Tx the driver returned (Commit: ErrInvalidTransaction, Rollback: the IsNil guard
+   makes it a no-op) or, with PrepareStmt, a *PreparedStmtTX around it (both:
+   ErrInvalidTransaction); no driver call, nothing reaches database/sql *)
+Fixpoint run_extra_failed (l : list bool) (h : option err) : list cls :=
+  match l with
+  | [] => []
+  | c :: r =>
+    let h1 := if c || c_prep C then add_error h (Some (mkErr EInvalidTx false)) else h in
+    cls_oe h1 :: run_extra_failed r h1
+  end.
+
 (* what happens after the block function ended: Commit / Rollback.
    DB.Transaction, outer branch (manual = false): return tx.Commit().Error, deferred
    tx.Rollback() when panicked or err != nil; or the documented manual pattern (manual = true):
@@ -315,7 +327,9 @@ Definition finish (manual : bool) (extra : list bool) (r : res) (l : list obs) (
 (* tx := db.Begin(); if tx.Error != nil { return tx.Error }; run the function on tx; finish *)
 Definition run_top (manual : bool) (p : prog) (extra : list bool) (s0 : st) : obs * list cls * st :=
   let '(f, s1) := issue KBegin s0 in
-  if f then (OC false [] CNil (CErr fault_err), [], log_tx s1 (TBegin false))   (* return tx.Error *)
+  if f then   (* return tx.Error; a manual program may still call Commit / Rollback on the handle *)
+    (OC false [] CNil (CErr fault_err), if manual then run_extra_failed extra (Some fault_err) else [],
+     log_tx s1 (TBegin false))
   else
     let s1 := set_tx (log_tx s1 (TBegin true)) (Some (mkTx (s_db s1) [])) in
     let '(r, l, h, s2) := run_body p None s1 in
